@@ -87,6 +87,7 @@ def _reset(inputs, seed=0):
     S.inputs = dict(inputs)
     S.results = []
     S.missing = []
+    S.drawn = {}
     S.rng = random.Random(seed)
     _install_fake_random()
 
@@ -113,13 +114,17 @@ def _num(v, default):
 def real(name):
     if name not in S.inputs:
         S.missing.append(name)
-    return float(_num(S.inputs.get(name), S.rng.uniform(-2, 2)))
+    v = float(_num(S.inputs.get(name), S.rng.uniform(-2, 2)))
+    S.drawn[name] = v
+    return v
 
 
 def integer(name):
     if name not in S.inputs:
         S.missing.append(name)
-    return int(_num(S.inputs.get(name), S.rng.randint(0, 3)))
+    v = int(_num(S.inputs.get(name), S.rng.randint(0, 3)))
+    S.drawn[name] = v
+    return v
 
 
 def boolean(name):
@@ -146,7 +151,38 @@ def symarr(name, n=None, kind="real"):
             out.append(int(_num(v, S.rng.randint(0, 3))))
         else:
             out.append(float(_num(v, S.rng.uniform(-2, 2))))
+    S.drawn.setdefault(name, {"points": {str(i): (x if isinstance(x, (bool, int)) else float(x)) for i, x in enumerate(out)}})
     return np.array(out, dtype={"bool": bool, "int": int}.get(kind, float))
+
+
+def absarr(name, n=None):
+    if n is None:
+        v = S.inputs.get(name + "_len")
+        n = int(_num(v, S.rng.randint(2, 6)))
+        S.drawn[name + "_len"] = n
+    vals = S.inputs.get(name)
+    out = []
+    for i in range(int(n)):
+        v = vals["points"].get(str(i)) if isinstance(vals, dict) and "points" in vals else None
+        out.append(float(_num(v, S.rng.uniform(-1, 1))))
+    S.drawn[name] = {"points": {str(i): x for i, x in enumerate(out)}}
+    return np.array(out)
+
+
+def energy(a):
+    return float(np.sum(np.abs(np.asarray(a)) ** 2))
+
+
+def bounded_response(name):
+    u = _UFunc(name, True, "complex")
+    return lambda f: u(f) / np.maximum(1.0, np.abs(u(f)))
+
+
+def delay_response(k, dt):
+    """frequency response of a delay by k samples of spacing dt"""
+    def delay(f):
+        return np.exp(-2j * np.pi * np.asarray(f) * k * dt)
+    return delay
 
 
 def fresh_index(name, n):
@@ -458,7 +494,7 @@ def call_real(fn, *a, **k):
     return fn(*a, **k)
 
 
-def loop_invariant(qualname, ordinal, fn, name=None, havoc=()):
+def loop_invariant(qualname, ordinal, fn, name=None, havoc=(), frame=()):
     pass
 
 
